@@ -15,6 +15,7 @@
 (*   Below           a value a must be strictly below a bound b            *)
 (*   OpenAngle       an angle a must satisfy 0 < |a| < 2 pi                *)
 (*   Requires(flag)  a life-cycle call needs the mesh to be assembled      *)
+(*   NoneSolitary    a list of faces none of which is isolated             *)
 (*   Unique / Exists a second clamp on a vertex / a clamp or link that     *)
 (*                   matches no vertex                                     *)
 (* and a set of argument CLASSES around its boundary.  The expectation     *)
@@ -39,6 +40,7 @@ Holds(cond, v) ==
       [] cond.type = "Requires" -> v = 1                           \* 1: precondition established, 0: never, 2: established and undone again
       [] cond.type = "Unique" -> v = 1                             \* number of clamps put on the vertex
       [] cond.type = "Exists" -> v = 1                             \* 1: matches a vertex, 0: does not
+      [] cond.type = "NoneSolitary" -> v = 0                       \* position (1..3) of the face that touches no other face in a list of three; 0: none
 
 \* classes on both sides of every boundary of the condition
 Classes(cond) ==
@@ -54,6 +56,7 @@ Classes(cond) ==
       [] cond.type = "Requires" -> {0, 1, 2}
       [] cond.type = "Unique" -> {1, 2}
       [] cond.type = "Exists" -> {0, 1}
+      [] cond.type = "NoneSolitary" -> {0, 1, 2, 3}
 
 Range(lo, hi) == [type |-> "Range", lo |-> lo, hi |-> hi, n |-> 0, b |-> 0]
 Count(n) == [type |-> "Count", lo |-> 0, hi |-> 0, n |-> n, b |-> 0]
@@ -96,6 +99,8 @@ Calls == {
     [call |-> "LoftedShape.mid_list_first", cond |-> Count(4)],
     [call |-> "LoftedShape.mid_list_second", cond |-> Count(4)],
     [call |-> "Angle.angle", cond |-> Simple("OpenAngle")],
+    \* Shell.chop grades all lofts through one of them: every face has to touch another one, wherever it stands in the list
+    [call |-> "Shell.chop.faces", cond |-> Simple("NoneSolitary")],
     [call |-> "Curve.param", cond |-> Range(0, 3)],
     [call |-> "Frame.add_beam.pair", cond |-> Simple("Exists")],
     [call |-> "Optimizer.add_clamp.second", cond |-> Simple("Unique")],
